@@ -94,17 +94,21 @@ class ModelResultsHandler:
         """
         Create final data frames of results
         """
+
+        def merge_estimands(x, y):
+            # every column that is not specific to an estimand (the keys of the level, which can be more than
+            # one column for district elections, the reporting count and the unit category) is shared
+            # by the data frames of all estimands, so we join on all of them to keep exactly one copy
+            merge_on = [column for column in x.columns if column in y.columns]
+            return pd.merge(x, y, how="inner", on=merge_on)
+
         for agg in self.aggregates:
-            merge_on = ["postal_code", "reporting", agg]
             # joins together dfs of the same level of aggregation (different estimands)
-            agg_df = reduce(lambda x, y: pd.merge(x, y, how="inner", on=merge_on), self.estimates[agg])
+            agg_df = reduce(merge_estimands, self.estimates[agg])
             self.final_results[VALID_AGGREGATES_MAPPING.get(agg)] = agg_df
         if self.include_unit_data:
-            merge_on = ["postal_code", "reporting", "geographic_unit_fips"]
             # joins together unit data dfs (for different estimands)
-            self.final_results["unit_data"] = reduce(
-                lambda x, y: pd.merge(x, y, how="inner", on=merge_on), self.unit_data.values()
-            )
+            self.final_results["unit_data"] = reduce(merge_estimands, self.unit_data.values())
 
     def add_national_summary_estimates(self, nat_sum_estimates_dict):
         df = pd.DataFrame(index=["margin"])
